@@ -5,6 +5,7 @@
 -/
 import LyonVerif.Drive.Common
 import LyonVerif.Model.Tess.StrokeParts
+import LyonVerif.Model.Tess.StrokeFull
 
 namespace Lyon.Drive.C05
 open Lyon Lyon.Drive Lyon.Stroke
@@ -23,7 +24,7 @@ def fVtx (v : Vtx α) : String :=
   unwords [fp v.position, fp v.normal, fp v.positionOnPath, fx v.lineWidth, fx v.advancement,
            fSide v.side, fSrc v.src]
 
-def fTri (t : Tri) : String := toString t.1 ++ " " ++ toString t.2.1 ++ " " ++ toString t.2.2
+def fTri (t : Lyon.Stroke.Tri) : String := toString t.1 ++ " " ++ toString t.2.1 ++ " " ++ toString t.2.2
 
 def fOut (o : Out α) : String :=
   unwords (["V", toString o.verts.length] ++ o.verts.map (fun d => fVtx d.read)
@@ -171,7 +172,85 @@ def poly (v : Array String) : String :=
   unwords (["V", toString m.verts.length] ++ m.verts.map (fun (s, sd) => toString s ++ " " ++ fSide sd)
     ++ ["T", toString m.tris.length] ++ m.tris.map fTri)
 
+/-! the complete output of the public stroker (`Model/Tess/StrokeFull.lean`):
+`full tol width miter_limit join start_cap end_cap nsub (n closed (x y)*)*` → every vertex with all
+accessors, every triangle -/
+
+section Full
+open Lyon.Stroke.Full
+
+def joinOf : String → LineJoin
+  | "miter" => .miter | "miterclip" => .miterClip | "round" => .round | _ => .bevel
+def capOf : String → LineCap
+  | "butt" => .butt | "square" => .square | _ => .round
+
+def subsToEvents (subs : List (List (P α) × Bool)) : List (PathEv α) :=
+  subs.flatMap (fun s => match s.1 with
+    | [] => []
+    | p :: r => PathEv.begin p :: r.map PathEv.line ++ [PathEv.end_ s.2])
+
+def fOutFull (o : Out α) : String :=
+  unwords (["V", toString o.verts.length] ++ o.verts.map (fun d => fVtx d.read)
+    ++ ["T", toString o.tris.length] ++ o.tris.map fTri)
+
+def full [HasIx α] [Asin α] [FlatConst α] (v : Array String) : String :=
+  let o : Opts α := ⟨rd v 0, rd v 1, rd v 2, joinOf (v.getD 3 ""), capOf (v.getD 4 ""), capOf (v.getD 5 ""), false, 0⟩
+  let subs : List (List (P α) × Bool) := rdSubs v (rdNat v 6) 7
+  match tessellateFw (Env.new o HasIx.ix) (subsToEvents subs) with
+  | some out => fOutFull out
+  | none => "panic"
+
+/-- parsed events: the id events and the attribute store `(id, attributes)` -/
+def rdEvents (v : Array String) (nattr : Nat) : Nat → Nat → List (IdEv α) × List (Nat × List α)
+  | 0, _ => ([], [])
+  | n+1, i =>
+    match v.getD i "" with
+    | "B" =>
+      let r := rdEvents v nattr n (i + 4 + nattr)
+      (IdEv.begin (rdNat v (i+1)) (rdP v (i+2)) :: r.1, (rdNat v (i+1), rdList v (i+4) nattr) :: r.2)
+    | "L" =>
+      let r := rdEvents v nattr n (i + 4 + nattr)
+      (IdEv.line (rdNat v (i+1)) (rdP v (i+2)) :: r.1, (rdNat v (i+1), rdList v (i+4) nattr) :: r.2)
+    | "Q" =>
+      let r := rdEvents v nattr n (i + 6 + nattr)
+      (IdEv.quad (rdP v (i+1)) (rdNat v (i+3)) (rdP v (i+4)) :: r.1, (rdNat v (i+3), rdList v (i+6) nattr) :: r.2)
+    | "C" =>
+      let r := rdEvents v nattr n (i + 8 + nattr)
+      (IdEv.cubic (rdP v (i+1)) (rdP v (i+3)) (rdNat v (i+5)) (rdP v (i+6)) :: r.1, (rdNat v (i+5), rdList v (i+8) nattr) :: r.2)
+    | _ =>
+      let r := rdEvents v nattr n (i + 2)
+      (IdEv.end_ (rdBool v (i+1)) :: r.1, r.2)
+
+def toPathEv : IdEv α → PathEv α
+  | .begin _ p => .begin p
+  | .line _ p => .line p
+  | .quad c _ p => .quad c p
+  | .cubic c1 c2 _ p => .cubic c1 c2 p
+  | .end_ c => .end_ c
+
+def fOutAttrs (store : Nat → List α) (o : Out α) : String :=
+  unwords (["V", toString o.verts.length]
+    ++ o.verts.map (fun d => let a := interpolatedAttributes store d.src
+                             unwords ([fVtx d.read, "A", toString a.length] ++ a.map fx))
+    ++ ["T", toString o.tris.length] ++ o.tris.map fTri)
+
+def fulle [HasIx α] [Asin α] [FlatConst α] (v : Array String) : String :=
+  let o : Opts α := ⟨rd v 0, rd v 1, rd v 2, joinOf (v.getD 3 ""), capOf (v.getD 4 ""), capOf (v.getD 5 ""), rdBool v 6, 0⟩
+  let fwIds := rdBool v 7
+  let nattr := rdNat v 8
+  let (evs, attrs) : List (IdEv α) × List (Nat × List α) := rdEvents v nattr (rdNat v 9) 10
+  let store : Nat → List α := fun id => ((attrs.find? (fun a => a.1 == id)).map (·.2)).getD []
+  let e := Env.new o HasIx.ix
+  let r := if fwIds then tessellateFw e (evs.map toPathEv) else tessellateIds e store evs
+  match r with
+  | some out => fOutAttrs (if fwIds then fun _ => [] else store) out
+  | none => "panic"
+
+end Full
+
 def families : List Family := [
+  ⟨"full", full (α := Float32), full (α := Float)⟩,
+  ⟨"fulle", fulle (α := Float32), fulle (α := Float)⟩,
   ⟨"poly", poly (α := Float32), poly (α := Float)⟩,
   ⟨"cn", cn (α := Float32), cn (α := Float)⟩,
   ⟨"cfs", cfs (α := Float32), cfs (α := Float)⟩,
